@@ -1,21 +1,26 @@
 #!/bin/sh
-# re-run our checks against every seeded change and record the verdict lines in its meta.json
+# tools/refresh_seeded.sh [N] : re-run our checks against every seeded change (N at a time, default 3; the C19 ones one
+# after the other at the end, because the translator writes one shared RoutesGen.v) and record the verdict lines in meta.json
 cd /verif
-for d in seeded/*/; do
-  id=$(basename "$d"); p=${id%-*}
+par="${1:-3}"
+one() {
+  d="$1"; id=$(basename "$d"); p=${id%-*}
   extra=""
   case "$id" in C08-2|C03-2) extra="C01";; C13-1) extra="C05";; C10-2) extra="C09";; esac
   res=""
   for q in $p $extra; do
-    out=$(tools/mutcheck.sh "/verif/$d/patch.diff" "$q" 2>&1 | grep -E "^(== |VIOLATION)" | head -4 | sed 's#/verif/build/replays/##' | tr '\n' ' ')
+    out=$(tools/mutcheck.sh "/verif/seeded/$id/patch.diff" "$q" 2>&1 | grep -E "^(== |VIOLATION|PATCH)" | head -4 | sed 's#/verif/build/replays/##' | tr '\n' ' ')
     res="$res$out | "
   done
-  python3 - "$d/meta.json" "$res" <<'PY'
+  python3 - "/verif/seeded/$id/meta.json" "$res" <<'PY'
 import json,sys
 m=json.load(open(sys.argv[1])); m["our_checks"]=sys.argv[2]
 m["caught"]= "VIOLATION" in sys.argv[2]
 m["caught_with_replay"]= ("VIOLATION" in sys.argv[2]) and any(("VIOLATION" in part and "no-failing-input-found" not in part) for part in sys.argv[2].split("|"))
 json.dump(m,open(sys.argv[1],"w"),indent=1)
 PY
-  echo "$id: $res" | cut -c1-200
-done
+  echo "$id: $res" | cut -c1-220
+}
+if [ "$1" = "--one" ]; then one "$2"; exit 0; fi
+ls -d seeded/*/ | grep -v "seeded/C19-" | xargs -P "$par" -I{} sh tools/refresh_seeded.sh --one {}
+for d in seeded/C19-*/; do one "$d"; done
